@@ -7,7 +7,9 @@ from vlib.checks import tcommon
 TABLES = [("callpaths", "semantic_p3/call_paths_p3"), ("status", "semantic_p3/stmt_status_p3.bundle*")]
 
 
-WITNESSES = ("method_chain",)        # open known finding: method call on the object returned by a method call
+# open known findings: method call on the object returned by a method call; call of a returned module-level function; third
+# calling context of one call site; callback field called through self
+WITNESSES = ("method_chain", "returned_named_function", "three_contexts_of_one_call_site", "callback_field_called_in_method")
 
 
 def with_call(p):
@@ -48,6 +50,30 @@ def extra_programs():
         bounds={"a": (0, 3), "b": (0, 2)})
     add("returned_closure_called", ["k = mk2(a)", "return k(b)"],
         helpers="def mk2(n):\n    def inner(v):\n        return v - n\n    return inner\n")
+    # round 2 (shapes reported by a seeding agent as fragile)
+    add("returned_named_function", ["r = mk3()", "return r(a)"], helpers=G + "\ndef mk3():\n    return g\n")
+    add("returned_function_chosen_by_argument", ["r = mk4(c)", "return r(a)"],
+        helpers=G + "\ndef h9(v):\n    return v * 9\n\ndef mk4(flag):\n    if flag:\n        return g\n    return h9\n")
+    add("callback_field_called_in_method", ["o = A4(g)", "return o.run(a)"],
+        helpers=G + "\nclass A4:\n    def __init__(self, fn):\n        self.fn = fn\n    def run(self, v):\n        return self.fn(v)\n")
+    add("callback_field_called_outside", ["o = A5(g)", "return o.fn(a)"],
+        helpers=G + "\nclass A5:\n    def __init__(self, fn):\n        self.fn = fn\n")
+    add("three_contexts_of_one_call_site", ["return wrap(ha) + wrap(hb) + wrap(hc)"],
+        helpers="def ha():\n    return 1\n\ndef hb():\n    return 2\n\ndef hc():\n    return 3\n\ndef runit(fn):\n    return fn()\n\n"
+                "def wrap(fn):\n    return runit(fn)\n")
+    add("two_contexts_of_one_call_site", ["return wrap2(ha2) + wrap2(hb2)"],
+        helpers="def ha2():\n    return 1\n\ndef hb2():\n    return 2\n\ndef runit2(fn):\n    return fn()\n\ndef wrap2(fn):\n    return runit2(fn)\n")
+    add("same_callee_from_three_sites", ["x = g(a)", "y = g(b)", "z = g(x)", "return x - y + z"], helpers=G)
+    add("method_on_object_from_list", ["l = [A6(a), A6(b)]", "return l[0].get() - l[1].get()"],
+        helpers="class A6:\n    def __init__(self, v):\n        self.v = v\n    def get(self):\n        return self.v\n")
+    add("method_on_object_from_field", ["o = A7(A6b(a))", "return o.inner.get()"],
+        helpers="class A6b:\n    def __init__(self, v):\n        self.v = v\n    def get(self):\n        return self.v\n\n"
+                "class A7:\n    def __init__(self, i):\n        self.inner = i\n")
+    add("inherited_two_levels", ["o = C8(a)", "return o.m(b)"],
+        helpers="class A8:\n    def __init__(self, v):\n        self.v = v\n    def m(self, d):\n        return self.v - d\n\nclass B8(A8):\n    pass\n\nclass C8(B8):\n    pass\n")
+    add("overriding_method_chosen_by_branch", ["o = A9(a)", "if c:", "    o = B9(a)", "return o.m(b)"],
+        helpers="class A9:\n    def __init__(self, v):\n        self.v = v\n    def m(self, d):\n        return self.v - d\n\n"
+                "class B9(A9):\n    def m(self, d):\n        return self.v + d\n")
     return P
 
 
